@@ -331,6 +331,27 @@ def sum_ge1(counts, pc, facts):
     return False
 
 
+def _empty_total(c, t):
+    """The decision (c, t) says that a sum of counts containing len(pos) or len(neg) is not positive: impossible with two non-empty classes."""
+    # a decision "this sum of counts is not positive" / "is zero" where the sum contains len(pos) or len(neg) with a positive
+    # coefficient and nothing negative: impossible with two non-empty classes
+    if not (isinstance(c, _A) and c.args and c.fn in ("lt0", "eq0", "le0")):
+        return False
+    pz = to_poly(c.args[0])
+    if pz is None:
+        return False
+    if c.fn == "lt0" and not t:
+        pz = -pz          # not (-S < 0)  i.e.  S <= 0
+    elif c.fn in ("eq0", "le0") and t:
+        pass              # S == 0 / S <= 0
+    else:
+        return False
+    if c.fn == "eq0" and not all(co > 0 for co in pz.t.values()):
+        pz = -pz
+    ok_atoms = all(len(m) == 1 and m[0][1] == 1 and (m[0][0] in (HP, HN, EP, EN)) and co > 0 for m, co in pz.t.items())
+    return ok_atoms and any(m[0][0] in (HP, HN) for m in pz.t)
+
+
 def sample_wellformed(ctx, chk):
     """R11.1 / R11.5 / R11.3(proportion) on every return path of Scores.bootstrap_sample over the built-in configuration matrix."""
     ev = ctx.ev
@@ -346,6 +367,8 @@ def sample_wellformed(ctx, chk):
         cls, m, s, sm = o.config
         if cls != SCORES:
             continue
+        if any(_empty_total(c, t) for c, t in o.pc if hasattr(c, "key")):
+            continue      # a path that decided "this class total is zero": excluded by the standing assumption of two non-empty classes
         if o.kind == "raise":
             expected = (m == "single_pass" and sm) or (m == "dynamic" and False)
             if not expected:
@@ -749,6 +772,9 @@ def draw_parameters(ctx, chk):
                         continue
                     if any(c == some and not t for c, t in o.pc):
                         continue      # "no samples at all" contradicts the standing assumption of two non-empty classes
+
+                    if any(_empty_total(c, t) for c, t in o.pc if hasattr(c, "key")):
+                        continue
                     n += 1
                     from .c09 import zero_facts
                     z = zero_facts(o.pc)     # easy counts that this path knows to be zero
